@@ -117,7 +117,9 @@ def run(ctx):
                 mm2 = [m for m in mm2 if m["cause"] == "request-derivation"]
                 if not mm2:
                     raise vf.Inconclusive("third-party rejection of event %d did not reproduce: %s" % (rj["l"], e["text"]))
-                ctx.report("request %s: third-party flag: spec says %s, code says %s" % (mm2[0]["request"], mm2[0]["expected"], mm2[0]["got"]),
+                detail = ("third-party flag: spec says %s, code says %s" % (mm2[0]["expected"], mm2[0]["got"])
+                          if mm2[0]["expected"] != mm2[0]["got"] else "the real request's host names are not the ones of the URLs")
+                ctx.report("request %s: %s" % (mm2[0]["request"], detail),
                            {"reexec": ["replay-rule"], "input": inp}, {"cause": "request-derivation"})
                 continue
             # re-execute exactly this event from its abstract form against the real code
